@@ -190,7 +190,7 @@ def random_schedule(rnd, n, rows, with_down=True, with_state_loss=False, with_tx
                 s.append(["LsClose"]); up = False; downs += 1
             elif not up:
                 if with_state_loss and rnd.random() < 0.25:
-                    s.append([rnd.choice(["MetaLost", "MetaLost", "SaveCopy", "ReplaceDb"])])
+                    s.append([rnd.choice(["MetaLost", "SaveCopy", "ReplaceDb", "SaveAll", "RestoreAll", "RestoreAll"])])
                 s.append(["LsOpen", rnd.choice(["new", "same"])]); up = True
         elif x < 0.95 and with_state_loss and up:
             s.append(["LsReset"])
